@@ -470,9 +470,11 @@ def run(ctx):
     t2 = time.time()
     bad = ctx.coq_failing(cases, "ok", imports=IMPORTS, shard=500)
     t3 = time.time()
-    for i in bad:
+    for rank, i in enumerate(bad):
         c = raw[i]
-        view = ctx.coq_show("model_view c", imports=IMPORTS, preamble="Definition c := %s.\n" % cases[i])
+        # the model's verdict is re-evaluated (one coqc run each) only for the first few failing cases
+        view = (ctx.coq_show("model_view c", imports=IMPORTS, preamble="Definition c := %s.\n" % cases[i])
+                if rank < 3 else "not evaluated (only for the first 3 failing cases of a run)")
         ctx.fail("corr", "protobuf %s codec: implementation and model disagree, or the round trip is lossy "
                          "(corr:C20:%s; model_view = (encoding agrees, decoding agrees, read == original))" % (c["kind"], c["kind"]),
                  ["component", c["kind"]] + c["tags"],
@@ -1137,7 +1139,7 @@ def whole_objects(ctx):
         y = roundtrip(p, "example:" + name, ["example"])
         if y is None:
             continue
-        if hash(p) != hash(y):
+        if p == y and hash(p) != hash(y):
             ctx.fail("oracle", "C20 example %s: equal problems with different hashes" % name, ["whole-object", "hash"], {"label": name}, True)
         for pl in list(ex.valid_plans) + list(ex.invalid_plans):
             roundtrip(pl, "example-plan:" + name, ["example", "plan"], read_args=(p,))
